@@ -12,14 +12,14 @@ Ltac take_step :=
 Lemma read_str_total bs : total (read_str bs).
 Proof.
   unfold read_str. destruct (Nat.ltb_spec (length bs) 4); [exact I|]. take_step.
-  destruct (Nat.ltb_spec (length bs - 4) (N.to_nat (unle (firstn 4 bs)))); [exact I|]. take_step. exact I.
+  destruct (N.ltb_spec (N.of_nat (length bs - 4)) (unle (firstn 4 bs))); [exact I|]. take_step. exact I.
 Qed.
 
 (* what read_str hands on is what is left of the payload *)
 Lemma read_str_some bs s r : read_str bs = Ok (Some (s, r)) -> (length r <= length bs)%nat.
 Proof.
   unfold read_str. destruct (Nat.ltb_spec (length bs) 4); [discriminate|]. take_step.
-  destruct (Nat.ltb_spec (length bs - 4) (N.to_nat (unle (firstn 4 bs)))); [discriminate|]. take_step.
+  destruct (N.ltb_spec (N.of_nat (length bs - 4)) (unle (firstn 4 bs))); [discriminate|]. take_step.
   intro E. assert (Hr : skipn (N.to_nat (unle (firstn 4 bs))) (skipn 4 bs) = r) by congruence.
   rewrite <- Hr, !skipn_length. lia.
 Qed.
@@ -58,7 +58,7 @@ Proof.
   destruct (_ =? 1)%N.
   - match goal with |- context [Nat.ltb (length ?l) 16] => destruct (Nat.ltb_spec (length l) 16); [exact I|] end.
     take_step. exact I.
-  - match goal with |- context [Nat.ltb ?a ?b] => destruct (Nat.ltb a b); [exact I|] end.
+  - match goal with |- context [N.ltb ?a ?b] => destruct (N.ltb a b); [exact I|] end.
     apply total_bind; [apply dec_rows_total|]. intros; exact I.
 Qed.
 
